@@ -222,12 +222,13 @@ func main() {
 			limit = 240
 		}
 		for {
-			time.Sleep(2 * time.Second)
+			time.Sleep(500 * time.Millisecond)
 			st := atomic.LoadInt64(&curStart)
 			if lp := atomic.LoadInt64(&lastProgress); lp > st {
 				st = lp // the run is slow but alive: the watchdog measures time without progress
 			}
-			if st != 0 && time.Now().Unix()-st > limit {
+			storm, _ := stormReason.Load().(string)
+			if (st != 0 && time.Now().Unix()-st > limit) || storm != "" {
 				buf := make([]byte, 1<<20)
 				n := runtime.Stack(buf, true)
 				stack := string(buf[:n])
@@ -237,6 +238,9 @@ func main() {
 				}
 				rep := RunReport{Driver: drv, Run: int(atomic.LoadInt64(&curRun)), Seed: curSeed, Outcome: "violation", Sig: "hang", Nontrivial: true}
 				v := Violation{Property: flProp, Class: "hang", Site: site, Detail: fmt.Sprintf("run did not finish within %d s; main goroutine in %s", limit, site)}
+				if storm != "" {
+					v.Detail = storm
+				}
 				os.MkdirAll("/verif/.cache/logs", 0755)
 				hf := fmt.Sprintf("/verif/.cache/logs/hang-%s-%d.txt", flProp, curSeed)
 				os.WriteFile(hf, []byte(stack), 0644)
@@ -345,6 +349,23 @@ func progressTick() { atomic.StoreInt64(&lastProgress, time.Now().Unix()) }
 // minimisation is expensive: at most a few per worker process, and none after the worker's budget
 var minimisedSoFar int
 var workerStart = time.Now()
+
+// retry storm: see SUT.AutoSQL. The statement never returns; the watchdog goroutine reports the run
+// as a hang at once and ends the worker (the engine's goroutines keep spinning).
+const retryStormLimit = 20000
+
+var stormReason atomic.Value
+
+func reportRetryStorm(sql string, n int64) {
+	stormReason.Store(fmt.Sprintf("statement was aborted and re-queued %d times without completing (single driver, no competing transaction): %s", n, sql))
+	select {}
+}
+
+// overBudget: the worker's wall-clock budget is used up; long explorations inside one run stop
+// early (less coverage, never a different verdict on what was explored).
+func overBudget() bool {
+	return flBudget > 0 && time.Since(workerStart) > time.Duration(flBudget)*time.Second
+}
 
 func mayMinimise() bool {
 	if !flMinimise || minimisedSoFar >= 3 {
